@@ -18,7 +18,7 @@ Each decision is one evaluation. Non-trivial: the tag's path or the chain involv
 
 pub const ASSUMPTIONS: &[&str] = &[
     "reader chains start at a root element so that the position in the document is known from the first element",
-    "skipped and counted: (chain, tag) where the tag is a legal child of the open chain and also closes an unknown-size master in it, or where a global element is a declared ancestor/sibling of an open unknown-size master (the statement does not say which reading wins)",
+    "skipped and counted: (chain, tag) where the tag is a legal child of the open chain and also closes an unknown-size master in it, or where a global element is a declared ancestor/sibling of an open unknown-size master, or where an unknown-size master with a placeholder in its own path meets anything but a global element of a different path (the statement does not say which reading wins; a global element of a different path never closes an unknown-size master, so that case is judged)",
     "raw tags and Master::End are not hierarchy-checked by the writer (documented)",
 ];
 
@@ -238,8 +238,9 @@ fn ambiguous(spec: &SpecTable, open: &[(u64, bool)], x: u64) -> bool {
         if xe.is_global() && (xe.path == me.path || me.path.iter().any(|p| matches!(p, PathPart::Id(y) if *y == x))) {
             return true;
         }
-        // a master with a placeholder path open with unknown size: 'sibling' is not well defined
-        if me.is_global() {
+        // a master with a placeholder path open with unknown size: 'sibling' is not well defined — except towards a global element
+        // with a different declared path, which never closes an unknown-size master whatever that master's path looks like
+        if me.is_global() && !(xe.is_global() && xe.path != me.path) {
             return true;
         }
     }
